@@ -31,9 +31,9 @@ Definition kx (x : sx) : sctx := match x with XTop => KT | XLit QS => KS | XLit 
 Definition xk (k : sctx) : sx := match k with K0 | KT => XTop | KS => XLit QS | KD => XLit QD end.
 
 (* inside a # line the C preprocessor's own lexical rules apply: comments and literals *)
-Inductive dsub := DTxt | DSl | DLc | DBlk | DBlkSt | DDq | DSq.
+Inductive dsub := DTxt | DSl | DLc | DBlk | DBlkSt | DDq | DSq | DEscT | DEscD | DEscS.
 Definition dtxt (k : cls) : dsub :=
-  match k with kSl => DSl | kDq => DDq | kSq => DSq | _ => DTxt end.
+  match k with kSl => DSl | kDq => DDq | kSq => DSq | kBs => DEscT | _ => DTxt end.
 Definition dstep (d : dsub) (k : cls) : dsub :=
   match d with
   | DTxt => dtxt k
@@ -41,8 +41,11 @@ Definition dstep (d : dsub) (k : cls) : dsub :=
   | DLc => DLc
   | DBlk => match k with kSt => DBlkSt | _ => DBlk end
   | DBlkSt => match k with kSl => DTxt | kSt => DBlkSt | _ => DBlk end
-  | DDq => match k with kDq => DTxt | _ => DDq end
-  | DSq => match k with kSq => DTxt | _ => DSq end
+  | DDq => match k with kDq => DTxt | kBs => DEscD | _ => DDq end
+  | DSq => match k with kSq => DTxt | kBs => DEscS | _ => DSq end
+  | DEscT => DTxt
+  | DEscD => DDq
+  | DEscS => DSq
   end.
 
 Inductive sq :=
@@ -81,6 +84,19 @@ Definition sin (x : sx) (m : mark) (k : cls) : sst :=
            end
   end.
 
+(* marking inside a # line: text outside C comments; a / is text only once it
+   turns out not to open a comment; blanks of a literal as in Fortran text *)
+Definition blank_mark (m : mark) : mark := match m with mU => mB | _ => m end.
+Definition dmark (d : dsub) (k : cls) (m : mark) : mark :=
+  match d with
+  | DTxt => match k with kSp | kWs | kSl => m | _ => mM end
+  | DSl => match k with kSl | kSt => m | _ => mM end
+  | DLc | DBlk | DBlkSt => m
+  | DDq => match k with kSp | kWs => blank_mark m | _ => mM end
+  | DSq => match k with kSp | kWs => blank_mark m | _ => mM end
+  | DEscT | DEscD | DEscS => mM
+  end.
+
 Definition sstep (s : sst) (k : cls) : sst :=
   let '(q, m) := s in
   match q with
@@ -106,10 +122,10 @@ Definition sstep (s : sst) (k : cls) : sst :=
       | _ => (SCmt k0, m)
       end
   | SSent _ | SCmt _ => s
-  | SDir k0 d => (SDir k0 (dstep d k), m)
+  | SDir k0 d => (SDir k0 (dstep d k), dmark d k m)
   end.
 
-(* what the next line starts in *)
+(* the Fortran context the next line starts in *)
 Definition seol (q : sq) : sctx :=
   match q with
   | SBol k | SBang k | SSent k | SCmt k | SDir k _ => k
@@ -117,25 +133,51 @@ Definition seol (q : sq) : sctx :=
   | SAmp x => kx x
   end.
 
+(* what a physical line starts in: Fortran text, or the inside of a # line that
+   a backslash-newline or an open block comment carries on *)
+Inductive lctx := LF (k : sctx) | LD (k : sctx) (d : dsub).
+Definition start_state (c : lctx) : sst :=
+  match c with LF k => (SBol k, mU) | LD k d => (SDir k d, mU) end.
+
+(* a backslash as the last character of a physical line splices the next line on *)
+Definition split_cont (cs : list ascii) : list ascii * bool :=
+  match split_last cs with
+  | Some (i, z) => if is_bs z then (i, true) else (cs, false)
+  | None => (cs, false)
+  end.
+
+Definition sfold0 (s : sst) (cs : list ascii) : sst := fold_left (fun s c => sstep s (cls_of c)) cs s.
+Definition sline (k : sctx) (cs : list ascii) : sst := sfold0 (SBol k, mU) cs.
+Definition lline (c : lctx) (cs : list ascii) : sst * bool :=
+  (sfold0 (start_state c) (fst (split_cont cs)), snd (split_cont cs)).
+
+Definition snext (r : sst * bool) : lctx :=
+  match fst (fst r) with
+  | SDir k d => if snd r then LD k d
+                else match d with DBlk | DBlkSt => LD k DBlk | _ => LF k end
+  | q => LF (seol q)
+  end.
+
 Inductive lclass := NotCounted | Code | Directive.
-Definition classify (s : sst) : lclass :=
-  match s with
-  | (SDir _ _, _) => Directive
+Definition is_mM (m : mark) : bool := match m with mM => true | _ => false end.
+Definition classify (r : sst * bool) : lclass :=
+  match fst r with
+  | (SDir _ d, m) =>
+      (* a / pending at a real line end is text after all *)
+      if is_mM m || (negb (snd r) && match d with DSl => true | _ => false end) then Directive else NotCounted
   | (_, mM) => Code
   | _ => NotCounted
   end.
 
-Definition sline (k : sctx) (cs : list ascii) : sst := fold_left (fun s c => sstep s (cls_of c)) cs (SBol k, mU).
-
-Fixpoint sfile (k : sctx) (n : nat) (ls : list pline) : list (nat * bool) :=
+Fixpoint sfile (c : lctx) (n : nat) (ls : list pline) : list (nat * bool) :=
   match ls with
   | [] => []
   | (cs, _) :: r =>
-      let s := sline k cs in
+      let s := lline c cs in
       match classify s with
-      | NotCounted => sfile (seol (fst s)) (S n) r
-      | Code => (n, false) :: sfile (seol (fst s)) (S n) r
-      | Directive => (n, true) :: sfile (seol (fst s)) (S n) r
+      | NotCounted => sfile (snext s) (S n) r
+      | Code => (n, false) :: sfile (snext s) (S n) r
+      | Directive => (n, true) :: sfile (snext s) (S n) r
       end
   end.
 
@@ -143,7 +185,8 @@ Fixpoint sfile (k : sctx) (n : nat) (ls : list pline) : list (nat * bool) :=
 (* per character, against the state it is read in *)
 Definition cguard (s : sst) (k : cls) : bool :=
   match k, s with
-  | kBs, _ => false                           (* no backslash anywhere: no C-level escapes or splices *)
+  | kBs, (SDir _ _, _) => true                (* C escapes and splices exist on # lines only *)
+  | kBs, _ => false                           (* no backslash in Fortran text *)
   | kSl, (SDir _ DSq, _) => false             (* no / inside a character constant of a directive line *)
   | kHash, (SIn _, (mU | mB)) => false        (* # as the first thing after a leading continuation & *)
   | _, _ => true
@@ -152,11 +195,20 @@ Definition cguard (s : sst) (k : cls) : bool :=
 Definition eguard (s : sst) : bool :=
   match s with
   | (SIn (XLit _), _) => false                (* character literal not closed and not continued *)
-  | (SDir _ (DBlk | DBlkSt), _) => false      (* a C block comment of a directive line still open at the line end *)
-  | (SDir _ _, _) => true
-  | (_, mB) => false                          (* a continuation line of a literal that holds only blanks of it *)
+  | (SDir _ (DEscT | DEscD | DEscS), _) => false   (* a backslash directly before a splice (escaped newline twice) *)
+  | (_, mB) => false                          (* a line that holds only blanks of a literal *)
   | _ => true
   end.
+Definition lguard (r : sst * bool) (nl : bool) : bool :=
+  eguard (fst r) &&
+  (if snd r then
+     nl &&                                                 (* no backslash at the very end of the file *)
+     match fst (fst r) with
+     | SDir _ DSl => false                                 (* a / directly before a splice *)
+     | SDir _ _ => true
+     | _ => false                                          (* splices exist on # lines only *)
+     end
+   else true).
 
 Fixpoint cguards (s : sst) (cs : list ascii) : bool :=
   match cs with
@@ -164,18 +216,21 @@ Fixpoint cguards (s : sst) (cs : list ascii) : bool :=
   | c :: r => cguard s (cls_of c) && cguards (sstep s (cls_of c)) r
   end.
 
-Fixpoint wf_from (k : sctx) (ls : list pline) : bool :=
+Definition is_lf0 (c : lctx) : bool := match c with LF K0 => true | _ => false end.
+
+Fixpoint wf_from (c : lctx) (ls : list pline) : bool :=
   match ls with
-  | [] => match k with K0 => true | _ => false end      (* no unfinished continuation at the end *)
-  | (cs, _) :: r => cguards (SBol k, mU) cs && eguard (sline k cs) && wf_from (seol (fst (sline k cs))) r
+  | [] => is_lf0 c             (* no unfinished continuation, directive or comment at the end *)
+  | (cs, nl) :: r =>
+      cguards (start_state c) (fst (split_cont cs)) && lguard (lline c cs) nl && wf_from (snext (lline c cs)) r
   end.
 
-Definition wf (ls : list pline) : bool := wf_from K0 ls.
+Definition wf (ls : list pline) : bool := wf_from (LF K0) ls.
 
 (* The same with one relaxation, used only to delimit a known finding: a
-   backslash INSIDE a character literal is an ordinary character of the literal
-   (Fortran has no escapes), provided it is not the last character of its line
-   (where the preprocessor splices). *)
+   backslash INSIDE a character literal of Fortran text is an ordinary
+   character of the literal (Fortran has no escapes), provided it is not the
+   last character of its line (where the preprocessor splices). *)
 Definition cguard_x (s : sst) (k : cls) : bool :=
   match k, s with
   | kBs, ((SIn (XLit _) | SAmp (XLit _)), _) => true
@@ -186,13 +241,11 @@ Fixpoint cguards_x (s : sst) (cs : list ascii) : bool :=
   | [] => true
   | c :: r => cguard_x s (cls_of c) && cguards_x (sstep s (cls_of c)) r
   end.
-Definition ends_bs (cs : list ascii) : bool :=
-  match split_last cs with Some (_, z) => is_bs z | None => false end.
-Fixpoint wfx_from (k : sctx) (ls : list pline) : bool :=
+Fixpoint wfx_from (c : lctx) (ls : list pline) : bool :=
   match ls with
-  | [] => match k with K0 => true | _ => false end
-  | (cs, _) :: r => cguards_x (SBol k, mU) cs && negb (ends_bs cs) && eguard (sline k cs)
-                    && wfx_from (seol (fst (sline k cs))) r
+  | [] => is_lf0 c
+  | (cs, nl) :: r =>
+      cguards_x (start_state c) (fst (split_cont cs)) && lguard (lline c cs) nl && wfx_from (snext (lline c cs)) r
   end.
-Definition wf_x (ls : list pline) : bool := wfx_from K0 ls.
-Definition S_lines (ls : list pline) : list (nat * bool) := sfile K0 1 ls.
+Definition wf_x (ls : list pline) : bool := wfx_from (LF K0) ls.
+Definition S_lines (ls : list pline) : list (nat * bool) := sfile (LF K0) 1 ls.
